@@ -3,11 +3,14 @@ NEXT NextCase
 CONSTANTS
   MaxFlat = 3
   FullPermsUpTo = 3
+  AllKindsUpTo = 2
   MaxDeepLinks = 2
+  DeepFull = FALSE
   Emit = TRUE
 INVARIANT AddRefinesRef
 INVARIANT AlgRefinesRef
 INVARIANT DeviationExact
+INVARIANT UnreachableExact
 INVARIANT PlanSane
 INVARIANT TargetNodeIsObject
 INVARIANT ShapeSane
